@@ -1,6 +1,13 @@
 """C17 - types and forms describe the data truthfully and survive serialisation (tier L + the pure-Python type parser)."""
+import base64
+import glob
 import json
 import os
+import re
+import shutil
+import subprocess
+import sys
+import tempfile
 
 from hypothesis import strategies as st
 
@@ -11,7 +18,7 @@ from akmodel import forms as MF
 from akshim import describe as D
 from akshim import layout as L
 from akshim.core import call, result_str, OtherNativeError, release
-from vlib.common import Violation, HarnessError
+from vlib.common import Violation, HarnessError, build_dir
 
 ID = "C17"
 MANIFEST = {
@@ -32,13 +39,16 @@ ASSUMPTIONS = [
 ]
 PLAN = {
     "quick": [{"flavour": "plain", "cases": 27000}, {"flavour": "san", "cases": 4000}],
-    "thorough": [{"flavour": "plain", "cases": 800000}, {"flavour": "san", "cases": 200000}],
+    # the last entry is the libFuzzer campaign: each of its workers runs one `F` seed case (FUZZ_RUNS executions of fuzz_form, own seed)
+    "thorough": [{"flavour": "plain", "cases": 320000}, {"flavour": "san", "cases": 120000},
+                 {"flavour": "san", "cases": 4, "workers": 4, "flags": ["--seeds", "--fuzz"]}],
 }
 WALL_CAP = {"quick": 900, "thorough": 3300}
 if os.environ.get("C17_DEV_SCALE"):     # development only: a fraction of the budget
     for _tier in PLAN.values():
         for _p in _tier:
-            _p["cases"] = max(1, int(_p["cases"] * float(os.environ["C17_DEV_SCALE"])))
+            if "flags" not in _p:
+                _p["cases"] = max(1, int(_p["cases"] * float(os.environ["C17_DEV_SCALE"])))
 FORK_EACH = False
 CFG = gen.Cfg(max_depth=3, leaf_dtypes=("int64", "float64", "bool", "int32", "uint8", "float32", "complex128", "int8", "uint64"), nan=False)
 PROBE_KEYS = ["x", "y", "z", "w", "0", "1", "2", "nope", "", "a b", "é", "-1", "01", "1x", " 1", "7", "99999999999", "99999999999999999999999"]
@@ -83,8 +93,20 @@ def strategy(tier):
     return strategy_()
 
 
+SEED_CASES = []
+FUZZ_RUNS = {"quick": 20000, "thorough": 1500000}      # per fuzz worker
+
+
 def setup(flavour, tier):
-    pass
+    """the plan entry flagged --fuzz (thorough, san) gives each of its workers one libFuzzer campaign of fuzz/fuzz_form.cpp as a seed case"""
+    global SEED_CASES
+    SEED_CASES = []
+    if "--fuzz" in sys.argv and flavour == "san":
+        seed = 1
+        if len(sys.argv) > 4 and sys.argv[4].isdigit():
+            seed = int(sys.argv[4]) % (2 ** 31 - 1) + 1
+        runs = int(os.environ.get("VERIF_FUZZ_RUNS", FUZZ_RUNS.get(tier, 20000)))
+        SEED_CASES.append({"part": "F", "seed": seed, "runs": runs, "max_len": 384})
 
 
 def case_label(case):
@@ -672,6 +694,129 @@ def run_D(case, hh):
     return {"tags": tags, "nontrivial": _nontrivial_type(T), "sample_class": "D:" + T[0]}
 
 
+# =========================================================================================== libFuzzer phase (thorough tier)
+_FUZZ_SEEDS = [
+    b'"float64"', b'{"class":"NumpyArray","primitive":"int32","inner_shape":[2,3],"has_identities":true,"parameters":{"k":[1,2.5,null,{"a":"b"}]},"form_key":"n0"}',
+    b'{"class":"NumpyArray","format":"d","itemsize":8}', b'{"class":"EmptyArray"}',
+    b'{"class":"ListOffsetArray64","offsets":"i64","content":{"class":"ListArray","starts":"u32","stops":"u32","content":"uint8","parameters":{"__array__":"string"}}}',
+    b'{"class":"RegularArray","size":3,"content":{"class":"IndexedOptionArray32","index":"i32","content":"bool"}}',
+    b'{"class":"IndexedArray","index":"u32","content":{"class":"RecordArray","contents":{"x":"int64","y":{"class":"ListOffsetArray32","content":"float32"}},"parameters":{"__record__":"Point"}}}',
+    b'{"class":"RecordArray","contents":["int8",{"class":"UnmaskedArray","content":"complex128"}]}',
+    b'{"class":"ByteMaskedArray","mask":"i8","valid_when":false,"content":"datetime64"}',
+    b'{"class":"BitMaskedArray","mask":"u8","valid_when":true,"lsb_order":false,"content":"timedelta64","has_identifier":false}',
+    b'{"class":"UnionArray8_U32","tags":"i8","index":"u32","contents":["float16",{"class":"VirtualArray","form":null,"has_length":true}]}',
+    b'{"class":"UnionArray","tags":"i8","index":"i64","contents":[]}', b'{"class":"VirtualArray","form":"uint64","has_length":false,"form_key":null}',
+    b'{"class":"IndexedArray64","content":"int16","parameters":{"__array__":"categorical","big":1099511627776,"x":-1.5e300,"s":"\\u00e9\\n"}}',
+]
+_FUZZ_DICT = ["class", "NumpyArray", "EmptyArray", "RegularArray", "ListArray", "ListArray32", "ListArrayU32", "ListArray64", "ListOffsetArray",
+              "ListOffsetArray32", "ListOffsetArrayU32", "ListOffsetArray64", "IndexedArray", "IndexedArray32", "IndexedArrayU32", "IndexedArray64",
+              "IndexedOptionArray", "IndexedOptionArray32", "IndexedOptionArray64", "ByteMaskedArray", "BitMaskedArray", "UnmaskedArray",
+              "RecordArray", "UnionArray", "UnionArray8_32", "UnionArray8_U32", "UnionArray8_64", "VirtualArray", "content", "contents", "form",
+              "offsets", "starts", "stops", "index", "tags", "mask", "size", "valid_when", "lsb_order", "has_length", "has_identities",
+              "has_identifier", "parameters", "form_key", "primitive", "format", "itemsize", "inner_shape", "i8", "u8", "i32", "u32", "i64",
+              "true", "false", "null", "__array__", "__record__", "string", "categorical"] + GF.PRIMITIVES
+
+
+def fuzz_binary():
+    return os.path.join(build_dir("san"), "fuzz_form")
+
+
+def _fuzz_env():
+    from vlib.runner import worker_env
+    env = worker_env("san")          # LD_PRELOAD of the shared ASan runtime the target is linked against
+    env["ASAN_OPTIONS"] = "detect_leaks=0:abort_on_error=0:detect_odr_violation=0:symbolize=1:allocator_may_return_null=1:quarantine_size_mb=8"
+    return env
+
+
+def _ensure_fuzz_binary():
+    from vlib.runner import build
+    if not build(["san"], "fuzz_form") or not os.path.exists(fuzz_binary()):
+        raise HarnessError("fuzz target %s could not be built (make FLAVOUR=san fuzz_form)" % fuzz_binary())
+
+
+def _run_with_heartbeat(cmd, env, errpath, limit):
+    """run a long child process; while it runs, touch this worker's slot file so that the runner's per-case watchdog (which looks at the
+    slot's age) does not take a fuzzing campaign of several minutes for a hang.  libFuzzer's own -timeout guards single inputs;
+    `limit` seconds bounds the whole campaign.  -> (stderr text, return code)"""
+    import time
+    slot = (sys.argv[6] + ".slot") if len(sys.argv) > 6 and sys.argv[0].endswith("worker.py") else None
+    with open(errpath, "wb") as ef:
+        proc = subprocess.Popen(cmd, stdout=subprocess.DEVNULL, stderr=ef, env=env)
+        t0 = time.time()
+        while True:
+            try:
+                rc = proc.wait(timeout=10)
+                break
+            except subprocess.TimeoutExpired:
+                if slot is not None and os.path.exists(slot):
+                    os.utime(slot, None)
+                if time.time() - t0 > limit:
+                    proc.kill()
+                    proc.wait()
+                    raise HarnessError("fuzz_form did not finish its %s within %d s" % (cmd[1], limit))
+    with open(errpath, "rb") as f:
+        return f.read().decode("utf-8", "replace"), rc
+
+
+def _fuzz_what(err, rc):
+    m = re.search(r"(ORACLE: [^\n]*|SUMMARY: [^\n]*|runtime error: [^\n]*)", err)
+    return m.group(1) if m else "exit status %d" % rc
+
+
+def run_fuzz(case):
+    exe = fuzz_binary()
+    _ensure_fuzz_binary()
+    work = tempfile.mkdtemp(prefix="fuzz_form_", dir=build_dir("san"))
+    corpus = os.path.join(work, "corpus")
+    os.makedirs(corpus)
+    for i, s in enumerate(_FUZZ_SEEDS):
+        with open(os.path.join(corpus, "seed%02d" % i), "wb") as f:
+            f.write(s)
+    with open(os.path.join(work, "dict"), "w") as f:
+        for w in _FUZZ_DICT:
+            f.write('"\\"%s\\""\n' % w)
+    cmd = [exe, "-runs=%d" % case["runs"], "-seed=%d" % case["seed"], "-max_len=%d" % case["max_len"], "-artifact_prefix=" + work + "/",
+           "-dict=" + os.path.join(work, "dict"), "-print_final_stats=1", "-timeout=20", "-rss_limit_mb=4096", corpus]
+    try:
+        err, rc = _run_with_heartbeat(cmd, _fuzz_env(), os.path.join(work, "stderr.txt"), limit=3000)
+        stats = dict(re.findall(r"stat::(\w+):\s+(\d+)", err))
+        counts = {"fuzz_executions": int(stats.get("number_of_executed_units", 0)), "fuzz_new_units": int(stats.get("new_units_added", 0))}
+        arts = sorted(glob.glob(os.path.join(work, "crash-*")) + glob.glob(os.path.join(work, "timeout-*")) + glob.glob(os.path.join(work, "oom-*")))
+        if rc != 0 or arts:
+            data = open(arts[0], "rb").read() if arts else b""
+            what = _fuzz_what(err, rc)
+            sub = {"part": "FI", "text": base64.b64encode(data).decode("ascii")}
+            vio = {"bucket": "fuzz:" + what[:60], "message": "fuzz_form: " + what, "expected": None, "observed": err[-1500:], "clause": None}
+            try:
+                from vlib.runner import write_replay
+                rp = write_replay(ID, "san", sub, vio, case["seed"])
+            except Exception as e:   # noqa: B902
+                rp = "replay not written: %r" % (e,)
+            raise Violation("fuzz:" + what[:60], "libFuzzer target fuzz_form failed (%s); input saved as %s" % (what, rp),
+                            expected=sub, observed=err[-1500:])
+    finally:
+        shutil.rmtree(work, ignore_errors=True)
+    return {"tags": ["part:fuzz"], "counts": counts, "nontrivial": False, "sample_class": "fuzz"}
+
+
+def run_fuzzinput(case):
+    """one stored input of the libFuzzer target (replay of a fuzz finding)"""
+    exe = fuzz_binary()
+    _ensure_fuzz_binary()
+    d = tempfile.mkdtemp(prefix="fuzz_form_in_", dir=build_dir("san"))
+    path = os.path.join(d, "input")
+    with open(path, "wb") as f:
+        f.write(base64.b64decode(case["text"]))
+    try:
+        p = subprocess.run([exe, path], capture_output=True, env=_fuzz_env(), timeout=120)
+    finally:
+        shutil.rmtree(d, ignore_errors=True)
+    if p.returncode != 0:
+        err = p.stderr.decode("utf-8", "replace")
+        raise Violation("fuzz:" + _fuzz_what(err, p.returncode)[:60], "fuzz_form fails on this input", observed=err[-1500:])
+    return {"tags": ["part:fuzzinput"], "nontrivial": False, "sample_class": "fuzz"}
+
+
 # =========================================================================================== dispatch
 def run_case(case):
     hh = H()
@@ -687,6 +832,10 @@ def run_case(case):
             return run_C(case, hh)
         if part == "D":
             return run_D(case, hh)
+        if part == "F":
+            return run_fuzz(case)
+        if part == "FI":
+            return run_fuzzinput(case)
         raise HarnessError("unknown part %r" % (part,))
     finally:
         hh.close()
